@@ -5,6 +5,6 @@ ROOT="$(cd "$(dirname "${BASH_SOURCE[0]}")" && pwd)"
 export CARGO_NET_OFFLINE=true
 export CARGO_TARGET_DIR="$ROOT/harness/target"
 cd "$ROOT/harness"
-cargo build --offline -p vcheck -p sched --profile checked
+cargo build --offline -p vcheck -p sched -p sendsync --profile checked
 cargo build --offline -p drain
 cargo build --offline -p drain --release
